@@ -28,6 +28,8 @@ class _OldRewriter(ast.NodeTransformer):
             inner = self.visit(node.args[0])
             self.depth -= 1
             return inner
+        if isinstance(node.func, ast.Name) and node.func.id in ("forall", "exists") and node.keywords:
+            node.keywords = [k for k in node.keywords if k.arg not in ("pat", "mpat")]  # solver hints: meaningless natively
         self.generic_visit(node)
         if isinstance(node.func, ast.Name) and node.func.id == "implies" and len(node.args) == 2:
             # lazy, like the logical reading: the consequent is only evaluated when the antecedent holds
